@@ -149,8 +149,14 @@ def Rodas(dae: nDAE,
             dt = np.minimum(dt, 0.5 * (tend - t))
 
         if opt.fix_h:
-            dt = opt.hinit
-            last_step = False
+            # the fixed grid need not hit tend (h does not divide the span, or an event cut a step): the last step is
+            # the (shorter) remainder, otherwise the run never ends at tend
+            if t + opt.hinit * (1 + 1e-8) >= tend:
+                dt = tend - t
+                last_step = True
+            else:
+                dt = opt.hinit
+                last_step = False
 
         if done:
             break
